@@ -140,12 +140,12 @@ pub fn backpressure_close(big: &str, small: &str, variant: &str) -> Vec<(String,
             return Ok(());
         }
         if variant != "onepass_paused" {
-            d.step("C pause", 20)?;
+            d.step("C pause", 90)?;
         }
         // wait until the parser thread is done (its output sits in the bounded channels) or is blocked itself
         let t0 = std::time::Instant::now();
         loop {
-            let r = d.step("T 0", 20)?;
+            let r = d.step("T 0", 90)?;
             let fin = r["state"]["pipeline"]["parse_finished"].as_bool().unwrap_or(false);
             if fin || t0.elapsed() > Duration::from_secs(6) {
                 break;
@@ -153,9 +153,9 @@ pub fn backpressure_close(big: &str, small: &str, variant: &str) -> Vec<(String,
             std::thread::sleep(Duration::from_millis(100));
         }
         std::thread::sleep(Duration::from_millis(300));
-        match d.step("C close", 40) {
+        match d.step("C close", 120) {
             Err(DriverErr::Hang) => {
-                viol.push(("hang".into(), "close_under_backpressure".into(), format!("close did not return within 40 s with the pipeline blocked on full channels (variant {variant})")));
+                viol.push(("hang".into(), "close_under_backpressure".into(), format!("close did not return within 120 s with the pipeline blocked on full channels (variant {variant})")));
                 return Err(DriverErr::Hang);
             }
             Err(e) => return Err(e),
@@ -166,15 +166,15 @@ pub fn backpressure_close(big: &str, small: &str, variant: &str) -> Vec<(String,
                 }
             }
         }
-        let r = d.step(&format!(r#"C open {{"files":["{small}"]}}"#), 30)?;
+        let r = d.step(&format!(r#"C open {{"files":["{small}"]}}"#), 90)?;
         if !r["frames"][0]["t"].as_str().unwrap_or("").starts_with("ok:") {
             viol.push(("open_after_close_failed".into(), variant.into(), r["frames"].to_string()));
         }
-        let r = d.step("T inf", 30)?;
+        let r = d.step("T inf", 90)?;
         if r["state"]["all_msgs"].as_u64() != Some(8) {
             viol.push(("open_after_close_failed".into(), "messages".into(), format!("re-opened small file shows {} messages", r["state"]["all_msgs"])));
         }
-        d.step("C close", 30)?;
+        d.step("C close", 90)?;
         Ok(())
     };
     if let Err(e) = run() {
@@ -310,12 +310,14 @@ pub fn alphabet() -> Vec<Sym> {
         Sym::WithId("chgwin_last", "stream_change_window", Last, Some("1,4")),
         Sym::WithId("chgwin_last_nobody", "stream_change_window", Last, None),
         Sym::WithId("chgwin_last_malformed", "stream_change_window", Last, Some("x")),
+        Sym::WithId("chgwin_first", "stream_change_window", First, Some("1,4")),
         Sym::WithId("chgwin_stale", "stream_change_window", Stale, Some("0,2")),
         Sym::WithId("chgwin_never", "stream_change_window", Never, Some("0,2")),
         Sym::WithId("bsearch_index", "stream_binary_search", Last, Some("index=2")),
         Sym::WithId("bsearch_time", "stream_binary_search", Last, Some("time_ms=0")),
         Sym::WithId("bsearch_nobody", "stream_binary_search", Last, None),
         Sym::WithId("bsearch_unknown", "stream_binary_search", Last, Some("foo=1")),
+        Sym::WithId("bsearch_first", "stream_binary_search", First, Some("index=2")),
         Sym::WithId("bsearch_stale", "stream_binary_search", Stale, Some("index=2")),
         Sym::WithId("ssearch_good", "stream_search", Last, Some(r#"{"filters":[{"type":0,"ecu":"ECU1"}]}"#)),
         Sym::WithId("ssearch_paged", "stream_search", Last, Some(r#"{"start_idx":0,"max_results":1,"filters":[]}"#)),
@@ -409,7 +411,7 @@ impl Session {
         Session { d: Driver::spawn(), file: file.to_string(), model: Model::default(), last_state: json!({"open": false}), last_class: String::new() }
     }
     pub fn reset(&mut self) -> Result<(), DriverErr> {
-        self.d.step("RESET", 30)?;
+        self.d.step("RESET", 90)?;
         self.model = Model::default();
         self.last_state = json!({"open": false});
         self.last_class.clear();
@@ -456,7 +458,7 @@ impl Session {
                 }
             }
         };
-        let r = self.d.step(&line, 20)?;
+        let r = self.d.step(&line, 90)?;
         let frames = r["frames"].as_array().cloned().unwrap_or_default();
         let state = r["state"].clone();
         let is_tick = matches!(sym, Sym::Tick(_));
@@ -717,6 +719,8 @@ impl Prop for C15 {
             (by(&["open_ok", "stream_filters", "T3", "query_filters"]), ctx.tier.pick(2, 3)),
             (by(&["open_sorted", "stream_window_bin", "T3", "chgwin_last"]), ctx.tier.pick(2, 3)),
             (by(&["open_ok", "pause", "stream_default", "T3", "resume"]), ctx.tier.pick(2, 3)),
+            // two live streams: commands addressing the older one (ids are no longer in creation order after a window change)
+            (by(&["open_ok", "stream_window_bin", "stream_filters", "T3"]), ctx.tier.pick(2, 3)),
         ];
         'seeds: for (seed_no, (seed, seed_depth)) in seeds.iter().enumerate() {
         let mut frontier: Vec<Vec<Sym>> = vec![seed.clone()];
@@ -851,7 +855,7 @@ impl Prop for C15 {
             }
         }
         }
-        ctx.begin_family("backpressure_close", "open a 700k-message file (thorough: also 1.8M) paused / one_pass / sorted, wait until the pipeline blocks on its full bounded channels, close (40 s watchdog), re-open, close");
+        ctx.begin_family("backpressure_close", "open a 700k-message file (thorough: also 1.8M) paused / one_pass / sorted, wait until the pipeline blocks on its full bounded channels, close (120 s watchdog), re-open, close");
         for h in bp_handles {
             if let Ok((v, viol)) = h.join() {
                 ctx.mine();
@@ -932,7 +936,7 @@ impl Endpoint for DriverEndpoint {
     fn exec(&mut self, cmd: &str) -> Result<Vec<Value>, String> {
         let mut frames = vec![];
         for l in [format!("C {cmd}"), "T inf".to_string(), "T 0".to_string(), "T 0".to_string()] {
-            let r = self.0.step(&l, 30).map_err(|e| format!("{e:?}"))?;
+            let r = self.0.step(&l, 90).map_err(|e| format!("{e:?}"))?;
             if let Some(p) = r["panic"].as_str() {
                 return Err(format!("panic {p}"));
             }
@@ -973,6 +977,8 @@ impl Drop for TcpServer {
 }
 pub struct TcpEndpoint {
     ws: tungstenite::WebSocket<tungstenite::stream::MaybeTlsStream<std::net::TcpStream>>,
+    /// silence (ms) after which the session counts as settled
+    pub settle_ms: u64,
 }
 impl TcpEndpoint {
     pub fn connect(port: u16) -> Result<TcpEndpoint, String> {
@@ -980,7 +986,7 @@ impl TcpEndpoint {
         if let tungstenite::stream::MaybeTlsStream::Plain(s) = ws.get_ref() {
             let _ = s.set_read_timeout(Some(Duration::from_millis(50)));
         }
-        Ok(TcpEndpoint { ws })
+        Ok(TcpEndpoint { ws, settle_ms: 400 })
     }
 }
 fn char4(v: u32) -> String {
@@ -1014,7 +1020,7 @@ impl Endpoint for TcpEndpoint {
                 Ok(_) => {}
                 Err(tungstenite::Error::Io(e)) if e.kind() == std::io::ErrorKind::WouldBlock || e.kind() == std::io::ErrorKind::TimedOut => {
                     // settled: a reply was seen and nothing arrived for 400 ms (the server loop ticks every ~100 ms)
-                    if (got_reply && last.elapsed() > Duration::from_millis(400)) || start.elapsed() > Duration::from_secs(20) {
+                    if (got_reply && last.elapsed() > Duration::from_millis(self.settle_ms)) || start.elapsed() > Duration::from_secs(60) {
                         break;
                     }
                 }
@@ -1022,7 +1028,7 @@ impl Endpoint for TcpEndpoint {
             }
         }
         if !got_reply {
-            return Err(format!("no reply to '{cmd}' within 20 s"));
+            return Err(format!("no reply to '{cmd}' within 60 s"));
         }
         Ok(frames)
     }
@@ -1177,11 +1183,19 @@ pub fn tcp_conformance(ctx: &mut Ctx, file: &str) {
                     None => break,
                 };
                 let r = (|| -> Result<(Value, Value), String> {
-                    drv.0.step("RESET", 30).map_err(|e| format!("{e:?}"))?;
+                    drv.0.step("RESET", 90).map_err(|e| format!("{e:?}"))?;
                     let a = transcript(&mut drv, &file, &h)?;
                     let mut tcp = TcpEndpoint::connect(server.port)?;
-                    let b = transcript(&mut tcp, &file, &h)?;
+                    let mut b = transcript(&mut tcp, &file, &h)?;
                     let _ = tcp.ws.close(None);
+                    if a != b {
+                        // the real server is only observed through time: a loaded machine may need longer to settle.
+                        // A mismatch is reported only if it persists with a 5x longer settle time.
+                        let mut tcp = TcpEndpoint::connect(server.port)?;
+                        tcp.settle_ms = 2000;
+                        b = transcript(&mut tcp, &file, &h)?;
+                        let _ = tcp.ws.close(None);
+                    }
                     Ok((a, b))
                 })();
                 if r.is_err() {
